@@ -1,6 +1,10 @@
 SPECIFICATION Spec
 CONSTANTS
+  MinSec = 1
   MaxSec = 2
+  Sims = {FALSE}
+  Port0s = {FALSE}
+  Extras = {"none"}
   Kinds = {"audio", "video", "application", "image"}
   MidSchemes = {"numeric", "named", "absent"}
   BundleModes = {"none", "all"}
